@@ -59,6 +59,8 @@ def plan(tier, seed):
                 shards.append(("pipe", tier, gi, ng, omfloat))
         if gi % 4 == 0:
             shards.append(("pipe_nostart", tier, gi, 3, True))
+        if gi % 8 in (0, 5):
+            shards.append(("pipe_wrap360", tier, gi, 2, True))
         if gi % 4 == 3:
             shards.append(("pipe_missing", tier, gi, 3, gi % 8 == 3))
             shards.append(("pipe_bigcell", tier, gi, 2, gi % 8 != 3))
@@ -68,6 +70,7 @@ def plan(tier, seed):
         if gi % 4 == 1:
             for omfloat in (True, False):
                 shards.append(("pipe_cubic", tier, gi, 2 if tier == "quick" else 3, omfloat))
+    shards.append(("callers",))
     k = seed % len(shards)
     return shards[k:] + shards[:k]
 
@@ -88,7 +91,7 @@ def true_grains(ng, seed, strained=True, cell=None):
     return out
 
 
-def simulate(tr, pars, grains, dsmax=0.95):
+def simulate(tr, pars, grains, dsmax=0.95, wrap360=False):
     """forward simulation with the python reference only; returns arrays sc, fc, omega, grain, hkl"""
     cell_ = [pars["cell__a"], pars["cell__b"], pars["cell__c"], pars["cell_alpha"], pars["cell_beta"], pars["cell_gamma"]]
     dsmax = dsmax * CELL[0] / cell_[0]
@@ -106,6 +109,8 @@ def simulate(tr, pars, grains, dsmax=0.95):
             for k in np.nonzero(inside)[0]:
                 rows.append((sc[k], fc[k], om[k] * pars["omegasign"], gi, hkls[k][0], hkls[k][1], hkls[k][2], tth[k], eta[k]))
     a = np.array(rows)
+    if wrap360:
+        a[:, 2] = a[:, 2] % 360.0          # the scan is written 0 .. 360 whatever the sign convention
     # remove peaks too close to the rotation axis poles / eta = 0, 180 where omega is ill-conditioned
     keep = np.abs(np.sin(np.radians(a[:, 8]))) > 0.1
     return a[keep]
@@ -149,7 +154,7 @@ def _makemap_repeated(opts, k):
     o.scandata[opts.fltfile].writefile(opts.fltfile + ".new")
 
 
-def run_case(sh, mods, pars, ng, omfloat, case, passes=3, with_translation=True, cubic=False, repeat=0, unlisted=0, cellscale=1.0):
+def run_case(sh, mods, pars, ng, omfloat, case, passes=3, with_translation=True, cubic=False, repeat=0, unlisted=0, cellscale=1.0, wrap360=False):
     tr, gm, P, cf_mod, makemap_mod = mods
     wd = os.path.join(WORK, "c09_%d" % os.getpid())
     shutil.rmtree(wd, ignore_errors=True)
@@ -160,7 +165,7 @@ def run_case(sh, mods, pars, ng, omfloat, case, passes=3, with_translation=True,
             pars = dict(pars, cell__a=CELL[0] * cellscale, cell__b=CELL[1] * cellscale, cell__c=CELL[2] * cellscale, distance=pars["distance"] * cellscale)
         cell_ = [pars["cell__a"], pars["cell__b"], pars["cell__c"], pars["cell_alpha"], pars["cell_beta"], pars["cell_gamma"]]
         truth = true_grains(ng, seed_of(), strained=not cubic, cell=cell_)
-        peaks = simulate(tr, pars, truth)
+        peaks = simulate(tr, pars, truth, wrap360=wrap360)
         start = perturbed(truth)
         if unlisted:
             # the last `unlisted` grains are in the sample (their peaks are in the table) but not in the grain file
@@ -288,24 +293,32 @@ def _mods():
 
 
 def run_shard(desc):
+    if desc[0] == "callers":
+        # score_and_refine (behind refinegrains.refine) is declared threadsafe: two refinements in two python threads are inside it at once
+        from vt.props import c06
+        return c06._run_callers(("callers",))
     kind, tier, gi, ng, omfloat = desc
     sh = Shard()
     pars = geometries(tier)[gi]
     case = {"tier": tier, "geometry": gi, "ngrains": ng, "omega_float": omfloat, "seed": seed_of(), "start_has_translations": kind != "pipe_nostart",
             "cubic_constraint": kind == "pipe_cubic", "refinepositions_calls_on_one_object": int(kind[11:]) if kind.startswith("pipe_repeat") else 0,
             "grains_not_in_the_grain_file": 1 if kind == "pipe_missing" else 0, "cell_scale": 30.0 if kind == "pipe_bigcell" else 1.0,
+            "omega_written_0_to_360": kind == "pipe_wrap360",
             "pars": {k: v for k, v in pars.items() if not k.startswith("cell")}}
     info = run_case(sh, _mods(), pars, ng, omfloat, case, with_translation=(kind != "pipe_nostart"), cubic=(kind == "pipe_cubic"),
-                    repeat=case["refinepositions_calls_on_one_object"], unlisted=case["grains_not_in_the_grain_file"], cellscale=case["cell_scale"])
+                    repeat=case["refinepositions_calls_on_one_object"], unlisted=case["grains_not_in_the_grain_file"], cellscale=case["cell_scale"], wrap360=case["omega_written_0_to_360"])
     sh.sample(dict(case, **{k: v for k, v in (info or {}).items()}), limit=1)
     return sh
 
 
 def replay(case):
+    if case.get("kind") == "callers":
+        from vt.props import c06
+        return c06.replay(case)
     os.environ["VERIF_SEED"] = str(case.get("seed", 0))
     sh = Shard()
     pars = geometries(case["tier"])[case["geometry"]]
     run_case(sh, _mods(), pars, case["ngrains"], case["omega_float"], case, with_translation=case.get("start_has_translations", True),
              cubic=case.get("cubic_constraint", False), repeat=case.get("refinepositions_calls_on_one_object", 0),
-             unlisted=case.get("grains_not_in_the_grain_file", 0), cellscale=case.get("cell_scale", 1.0))
+             unlisted=case.get("grains_not_in_the_grain_file", 0), cellscale=case.get("cell_scale", 1.0), wrap360=case.get("omega_written_0_to_360", False))
     return (not sh.violations), {"violations": sh.violations[:3]}
